@@ -132,7 +132,7 @@ NAME_VARIANTS = [
     lambda n: n,
     lambda n: n,
 ]
-TEXT_VARIANTS = [u"it's \udce9", u"\udcff'", u'say "\udc80"', u"both ' and \" \ud800", u"back\\slash \udfff's", u"plain \xe9 \u20ac",
+TEXT_VARIANTS = [u"tired \U0001f971", u"\U0001fae8 \u061d", u"it's \udce9", u"\udcff'", u'say "\udc80"', u"both ' and \" \ud800", u"back\\slash \udfff's", u"plain \xe9 \u20ac",
                  u"caf\udce9's.py", u"'", u"\udc80", u"\ud83d\ude00 pair then lone \ud83d"]
 
 
@@ -222,7 +222,7 @@ def compile_case(case):
     if case["k"] == "w9":
         import gen_const
         try:
-            return gen_const.build_case(case["seed"], case["i"], case.get("pair"))
+            return gen_const.build_case(case["seed"], case["i"], case.get("pair"), case.get("layout"))
         except (ValueError, TypeError, SystemError) as e:
             return "w9:%s" % case["i"], None, "w9-build:%s" % type(e).__name__
     id_, text, filename, mode, opt = resolve(case)
